@@ -149,11 +149,10 @@ fn main() {
     let mut fp = Map::new();
     for s in input["words"].as_array().unwrap_or(&empty) {
         let t = text(s);
-        let r = match t.parse::<f64>() {
-            Ok(f) => json!(words(f)),
-            Err(_) => json!([]),
-        };
-        fp.insert(key1(&tla_j(s)), r);
+        // only words that denote a double are listed; asking for any other word is an error of the asking model
+        if let Ok(f) = t.parse::<f64>() {
+            fp.insert(key1(&tla_j(s)), json!(words(f)));
+        }
     }
     out.insert("fparse".into(), J::Object(fp));
     std::fs::write(&args[2], serde_json::to_string(&J::Object(out)).unwrap()).expect("write table");
